@@ -98,20 +98,36 @@ def openOp (route lst tgt : String) (early banner seedC seedT : Nat) : Option St
   -- a banner that was not read ahead is the target's first segment
   if route ≠ "viafake" ∧ banner > 0 then some (s.stepDown (.data bannerB)) else some s
 
+def doOpen (s : St) (route lst tgt early banner seedC seedT : String) : St × String :=
+  if s.phase ≠ 0 then (s, "bad-op") else
+  match early.toNat?, banner.toNat?, seedC.toNat?, seedT.toNat? with
+  | some e, some b, some sc, some st =>
+    match openOp route lst tgt e b sc st with
+    | some s' => (s', s!"status 200 {s'.obs}")
+    | none => (s, "bad-op")
+  | _, _, _, _ => (s, "bad-op")
+
 def step (s : St) (toks : List String) : St × String :=
   match toks with
   | ["unreach", route, lst] =>
     if s.phase ≠ 0 ∨ (kindOf lst).isNone ∨ (route ≠ "direct" ∧ route ≠ "via") then (s, "bad-op") else
     let o := handleConnect s.cfg .refused [] [] []
     ({ s with phase := 2 }, s!"status {o.status} {if o.warning then "warning" else "nowarning"}")
-  | ["open", route, lst, tgt, early, banner, seedC, seedT] =>
-    if s.phase ≠ 0 then (s, "bad-op") else
-    match early.toNat?, banner.toNat?, seedC.toNat?, seedT.toNat? with
-    | some e, some b, some sc, some st =>
-      match openOp route lst tgt e b sc st with
-      | some s' => (s', s!"status 200 {s'.obs}")
-      | none => (s, "bad-op")
-    | _, _, _, _ => (s, "bad-op")
+  | ["open", route, lst, tgt, early, banner, seedC, seedT] => doOpen s route lst tgt early banner seedC seedT
+  | ["open", route, lst, tgt, early, banner, seedC, seedT, _timeoutMs] =>
+    -- the proxy's timeout is wall-clock: the model sees it only as the `deadline` event of op `outlive`
+    doOpen s route lst tgt early banner seedC seedT
+  | ["outlive", wrote, fwd] =>
+    -- the client wrote `wrote` bytes without ever being idle; `fwd` of them had been forwarded when the
+    -- serving loop's deadline on the client connection fell (fwd = wrote: it did not fall)
+    if s.phase ≠ 1 ∨ s.cClosed ≠ 0 ∨ s.tClosed ≠ 0 then (s, "bad-op") else
+    match wrote.toNat?, fwd.toNat? with
+    | some w, some k =>
+      if k > w then (s, "bad-op") else
+      let s := if k > 0 then s.stepUp (.data (stream s.seedC s.sentC k)) else s
+      let s := if k < w then { s.stepUp .deadline with cGone := true } else s
+      ({ s with sentC := s.sentC + w }, s.obs)
+    | _, _ => (s, "bad-op")
   | ["sendgone", who, n, _seed] =>
     if s.phase ≠ 1 ∨ (who ≠ "c" ∧ who ≠ "t") then (s, "bad-op") else
     match n.toNat? with
